@@ -241,6 +241,32 @@ def run(rep, pdb, tier):
             ok = not bad and len(defs) >= 2
             det += "; definitions=%d %s" % (len(defs), bad)
         rep.add("refuse/solve", rule, ok, sv["body"], det, where=loc(sv["body"]))
+        # ... and refuses ONLY then: every panic of solve is the entry size guard or a zero test of the pivot value
+        if len(divisors) == 1 and list(divisors)[0][0] == "var":
+            beta = list(divisors)[0]
+            vals = {beta}
+            b = ctx.binds.get(beta[1])
+            if b is not None and b.init is not None:
+                vals.add(ctx.term(b.init))
+            for a in ctx.assigns.get(beta[1], []):
+                vals.add(ctx.term(a["r"]))
+            bad = []
+            n_p = 0
+            for n_ in walk(sv["body"]):
+                if n_.get("k") == "If" and n_.get("else") is None and diverges(n_["then"]) and not any(x.get("k") == "Ret" for x in walk(n_["then"])):
+                    n_p += 1
+                    atoms = cond_atoms(ctx, n_["cond"], True)
+                    okp = False
+                    if len(atoms) == 1 and atoms[0][0] == "cmp" and atoms[0][1] == "==":
+                        a_, b_ = atoms[0][2], atoms[0][3]
+                        tested = b_ if is_zero_term(a_) else (a_ if is_zero_term(b_) else None)
+                        okp = tested in vals
+                    if len(atoms) == 1 and atoms[0][0] == "cmp" and atoms[0][1] == "!=" and canon_atom(atoms[0]) == canon_atom(norm_cmp("!=", N, SIZE(P(1)))):
+                        okp = True     # the entry size guard
+                    if not okp:
+                        bad.append("panic at %s is not a zero test of the pivot" % loc(n_))
+            rep.add("refuse/only-zero-pivot", "solve refuses only for a mismatched size or when the pivot value itself is zero (a zero diagonal entry alone is not a zero pivot)",
+                    not bad and n_p >= 3, sv["body"], "panic guards=%d %s" % (n_p, bad), where=loc(sv["body"]))
         rep.add("refuse/divisions", "solve contains the three divisions of the Thomas algorithm", len(divs) == 3, sv["body"], "divisions=%d" % len(divs), where=loc(sv["body"]))
     # ---- transpose (A)
     tp = pdb.fn("%s::transpose_in_place" % T)
@@ -363,7 +389,7 @@ def run(rep, pdb, tier):
     rep.floor("stencil/", 8)
     rep.floor("bounds/", 30)
     rep.floor("invariant/", 5)
-    rep.floor("refuse/", 2)
+    rep.floor("refuse/", 3)
     rep.floor("operators/", 10)
     rep.assumptions += ["the property's domain n >= 1 (Tridiagonal::new(0) underflows and is outside it)",
                         "struct invariant len(main)=n, len(sub)=len(sup)=n-1 (established by the four constructors and resize, checked by invariant/*)",
